@@ -334,8 +334,17 @@ func stressBreaker(seed int64, scale int) int {
 		ft := 1 + rng.Intn(3)
 		delay := int64(100)
 		var opened, halfOpened atomic.Int32
+		// every state change, in the order the (slow) generic listener was told about it: must be a connected path
+		var evMu sync.Mutex
+		var evPath [][2]circuitbreaker.State
 		b := circuitbreaker.Builder[int]().WithFailureThreshold(uint(ft)).WithSuccessThresholdRatio(uint(capTrial), uint(capTrial)).WithDelay(time.Duration(delay)).
-			OnOpen(func(circuitbreaker.StateChangedEvent) { opened.Add(1) }).OnHalfOpen(func(circuitbreaker.StateChangedEvent) { halfOpened.Add(1) })
+			OnOpen(func(circuitbreaker.StateChangedEvent) { opened.Add(1) }).OnHalfOpen(func(circuitbreaker.StateChangedEvent) { halfOpened.Add(1) }).
+			OnStateChanged(func(e circuitbreaker.StateChangedEvent) {
+				time.Sleep(20 * time.Microsecond)
+				evMu.Lock()
+				evPath = append(evPath, [2]circuitbreaker.State{e.OldState, e.NewState})
+				evMu.Unlock()
+			})
 		circuitbreaker.VerifSetClock(b, func() int64 { return now.Load() })
 		cb := b.Build()
 		// phase 1: many executions race with the failures that open the breaker
@@ -460,6 +469,19 @@ func stressBreaker(seed int64, scale int) int {
 		if halfOpened.Load() < 1 {
 			v.add("no half-open transition after the delay elapsed")
 		}
+		evMu.Lock()
+		prev := circuitbreaker.ClosedState
+		for i, ev := range evPath {
+			if ev[0] != prev || ev[0] == ev[1] {
+				v.add(fmt.Sprintf("state-change events do not form a connected path: event %d is %v>%v after state %v", i, ev[0], ev[1], prev))
+				break
+			}
+			prev = ev[1]
+		}
+		if len(evPath) > 0 && prev != cb.State() {
+			v.add(fmt.Sprintf("the last state-change event announced %v but the breaker is %v", prev, cb.State()))
+		}
+		evMu.Unlock()
 		// "however the execution ends": half-open trials that are cut short by their caller (context cancel, async Cancel), by an
 		// enclosing Timeout, or that panic-free fail / succeed, all give their permit back. Capacity 5 with 3 successes needed:
 		// one or two failed trials do not decide the state, so the breaker stays half-open and all five permits must be free again.
@@ -785,8 +807,19 @@ func stressFuture(seed int64, scale int) int {
 		var doneListenerAt atomic.Int64
 		mode := rng.Intn(3)
 		rp := retrypolicy.Builder[int]().WithMaxRetries(2).WithDelay(time.Duration(rng.Intn(200)) * time.Microsecond).Build()
-		ex := failsafe.NewExecutor[int](rp).OnDone(func(failsafe.ExecutionDoneEvent[int]) {
+		var doneRes atomic.Int64
+		var doneErr atomic.Value
+		var withoutRetry = rng.Intn(4) == 0 // no policy that reacts to cancellation: a Cancel must not change what is reported
+		pols := []failsafe.Policy[int]{rp}
+		if withoutRetry {
+			pols = nil
+		}
+		ex := failsafe.NewExecutor[int](pols...).OnDone(func(e failsafe.ExecutionDoneEvent[int]) {
 			time.Sleep(50 * time.Microsecond)
+			doneRes.Store(int64(e.Result))
+			if e.Error != nil {
+				doneErr.Store(e.Error)
+			}
 			doneListenerAt.Store(time.Now().UnixNano())
 		})
 		var n atomic.Int32
@@ -853,7 +886,28 @@ func stressFuture(seed int64, scale int) int {
 		default:
 			v.add("Done not closed after Get returned")
 		}
+		// the values every reader gets are the ones the completion listener was told about (one result per execution)
+		{
+			var de error
+			if x := doneErr.Load(); x != nil {
+				de = x.(error)
+			}
+			if int64(results[0]) != doneRes.Load() || (errs[0] == nil) != (de == nil) || (errs[0] != nil && errs[0].Error() != de.Error()) {
+				v.add(fmt.Sprintf("Get() = (%d, %v) but the completion listener reported (%d, %v)", results[0], errs[0], doneRes.Load(), de))
+			}
+		}
+		// a Cancel after completion changes nothing: the same values to every caller, at every later time
+		r.Cancel()
+		if v2, e2 := r.Get(); v2 != results[0] || (e2 == nil) != (errs[0] == nil) || (e2 != nil && e2.Error() != errs[0].Error()) {
+			v.add(fmt.Sprintf("Get() changed from (%d, %v) to (%d, %v) after a Cancel that came after completion", results[0], errs[0], v2, e2))
+		}
 		switch {
+		case withoutRetry:
+			// no retry / hedge policy: a Cancel does not have to be reported; the single invocation's own outcome is
+			v.count("no-retry-policy")
+			if errs[0] == nil || errs[0].Error() != "x" || n.Load() != 1 {
+				v.add(fmt.Sprintf("execution without policies: err=%v invocations=%d", errs[0], n.Load()))
+			}
 		case mode == 1 && cancelled:
 			v.count("cancelled")
 			// Cancel took effect before completion iff the result says so; otherwise it is the completed result
